@@ -1019,18 +1019,22 @@ func (o *ovsdbClient) monitor(ctx context.Context, cookie MonitorCookie, reconne
 	for _, o := range monitor.Tables {
 		_, ok := typeMap[o.Table]
 		if !ok {
+			db.modelMutex.RUnlock()
 			return fmt.Errorf("type for table %s does not exist in model", o.Table)
 		}
 		model, err := db.model.NewModel(o.Table)
 		if err != nil {
+			db.modelMutex.RUnlock()
 			return err
 		}
 		info, err := db.model.NewModelInfo(model)
 		if err != nil {
+			db.modelMutex.RUnlock()
 			return err
 		}
 		request, err := newMonitorRequest(info, o.Fields, o.Conditions)
 		if err != nil {
+			db.modelMutex.RUnlock()
 			return err
 		}
 		requests[o.Table] = *request
